@@ -713,9 +713,13 @@ class SInt:
     def __and__(self, o):
         if isinstance(o, int) and o >= 0 and (o & (o + 1)) == 0:
             return SInt(self.t % z3.IntVal(o + 1))
-        if isinstance(o, int) and o >= 0:
-            # x & mask for a general mask: go through bit-vectors (width from the mask)
-            return tobv_checked(self) & o
+        if isinstance(o, int) and o >= 0 and bin(o).count("1") <= 16:
+            # x & mask = sum of the selected bits; bit k of any int x is (x div 2^k) mod 2 (floor semantics)
+            t = z3.IntVal(0)
+            for k in range(o.bit_length()):
+                if (o >> k) & 1:
+                    t = t + ((self.t / z3.IntVal(1 << k)) % 2) * (1 << k)
+            return SInt(t)
         return tobv_checked(self) & o
 
     __rand__ = __and__
